@@ -203,20 +203,31 @@ func ruleKeyUpdate(c *Ctx, r *Report) {
 		// the ACK case looks at the epoch of the ACK record and at the epoch of each acknowledged record
 		var cmp *ssa.BinOp
 		hdrCmp, recCmp := false, false
-		for _, b := range hr.Blocks {
-			for _, in := range b.Instrs {
-				if bo, ok := in.(*ssa.BinOp); ok {
-					switch bo.Op {
-					case token.EQL, token.NEQ, token.LEQ, token.GTR, token.LSS, token.GEQ:
-					default:
-						continue
-					}
-					if isFieldLoad(bo.X, "pkg/protocol/recordlayer.Header", "Epoch") || isFieldLoad(bo.Y, "pkg/protocol/recordlayer.Header", "Epoch") {
-						hdrCmp = true
-						cmp = bo
-					}
-					if isFieldLoad(stripConv(bo.X), "pkg/protocol.RecordNumber", "Epoch") || strings.Contains(shapeOf(bo.X, 0), ".Epoch") && strings.Contains(typeShort(bo.X.Type()), "uint64") {
-						recCmp = true
+		hrUnit := c.unitFuncs(hr)
+		isHdrEpoch := func(v ssa.Value) bool {
+			for _, l := range c.OriginsIP(v, 0) {
+				if isFieldLoad(l, "pkg/protocol/recordlayer.Header", "Epoch") {
+					return true
+				}
+			}
+			return false
+		}
+		for _, uf := range hrUnit {
+			for _, b := range uf.Blocks {
+				for _, in := range b.Instrs {
+					if bo, ok := in.(*ssa.BinOp); ok {
+						switch bo.Op {
+						case token.EQL, token.NEQ, token.LEQ, token.GTR, token.LSS, token.GEQ:
+						default:
+							continue
+						}
+						if isHdrEpoch(bo.X) || isHdrEpoch(bo.Y) {
+							hdrCmp = true
+							cmp = bo
+						}
+						if isFieldLoad(stripConv(bo.X), "pkg/protocol.RecordNumber", "Epoch") || strings.Contains(shapeOf(bo.X, 0), ".Epoch") && strings.Contains(typeShort(bo.X.Type()), "uint64") {
+							recCmp = true
+						}
 					}
 				}
 			}
@@ -240,7 +251,7 @@ func ruleKeyUpdate(c *Ctx, r *Report) {
 		// number of a protected epoch
 		if cmp != nil {
 			isZero := func(v ssa.Value) bool { k, ok := constInt(v); return ok && k == 0 }
-			w := (&Walk{Fn: hr, Assume: func(v ssa.Value) (Val, bool) {
+			w := (&Walk{Fn: hr, Follow: followSamePkg(hr), Assume: func(v ssa.Value) (Val, bool) {
 				bo, ok := v.(*ssa.BinOp)
 				if !ok || (bo.Op != token.EQL && bo.Op != token.NEQ) {
 					return unknown, false
@@ -249,7 +260,7 @@ func ruleKeyUpdate(c *Ctx, r *Report) {
 					if !isZero(pr[1]) {
 						continue
 					}
-					if isFieldLoad(pr[0], "pkg/protocol/recordlayer.Header", "Epoch") {
+					if isHdrEpoch(pr[0]) {
 						return vBool(bo.Op == token.EQL), true // ACK record epoch == 0
 					}
 					if isFieldLoad(stripConv(pr[0]), "pkg/protocol.RecordNumber", "Epoch") {
@@ -260,18 +271,20 @@ func ruleKeyUpdate(c *Ctx, r *Report) {
 			}}).FromEntry()
 			leak := false
 			nApp := 0
-			for _, b := range hr.Blocks {
-				for _, in := range b.Instrs {
-					call, ok := in.(*ssa.Call)
-					if !ok || calleeName(&call.Call) != "builtin:append" {
-						continue
-					}
-					if !strings.HasSuffix(typeShort(call.Type()), "protocol.RecordNumber") {
-						continue
-					}
-					nApp++
-					if w.Reached[call] {
-						leak = true
+			for _, uf := range hrUnit {
+				for _, b := range uf.Blocks {
+					for _, in := range b.Instrs {
+						call, ok := in.(*ssa.Call)
+						if !ok || calleeName(&call.Call) != "builtin:append" {
+							continue
+						}
+						if !strings.HasSuffix(typeShort(call.Type()), "protocol.RecordNumber") {
+							continue
+						}
+						nApp++
+						if w.Reached[call] {
+							leak = true
+						}
 					}
 				}
 			}
